@@ -195,6 +195,108 @@ func checkAssemblerOrder(c *core.Ctx, pkg, rp string) {
 	r2 := c.Rule(rp+".2", "T", "queued data leaves only by contiguity, page limit or flush; queueing decision is nextSeq.Difference(seq) > 0")
 	r3 := c.Rule(rp+".3", "T", "skip is the announced gap")
 	r4 := c.Rule(rp+".4", "D", "SYN/FIN consume one sequence number")
+	r5 := c.Rule(rp+".5", "T", "sequence numbers are ordered, subtracted and advanced only through Sequence.Difference / Sequence.Add (wrap-safe); raw <, >, -, + on Sequence values appear nowhere else")
+	{
+		nOps := 0
+		isSeq := func(v ssa.Value) bool {
+			return core.NamedIs(v.Type(), "Sequence")
+		}
+		for _, fn := range pkgFunctions(p, pkg) {
+			if strings.HasSuffix(p.Pos(fn.Pos()), "_test.go") {
+				continue
+			}
+			k := core.FnKey(fn)
+			if strings.HasSuffix(k, "Sequence).Add") || strings.HasSuffix(k, "Sequence).Difference") {
+				continue
+			}
+			n := 0
+			core.Instrs(fn, func(ins ssa.Instruction) {
+				bo, ok := ins.(*ssa.BinOp)
+				if !ok {
+					return
+				}
+				switch bo.Op {
+				case token.SUB, token.ADD, token.LSS, token.GTR, token.LEQ, token.GEQ:
+				default:
+					return
+				}
+				if !isSeq(bo.X) && !isSeq(bo.Y) {
+					return
+				}
+				// comparisons against the negative sentinel (invalidSequence) are not orderings of two sequence numbers
+				for _, o := range []ssa.Value{bo.X, bo.Y} {
+					if kk, ok := core.ConstInt(o); ok && kk <= 0 && bo.Op != token.ADD && bo.Op != token.SUB {
+						return
+					}
+				}
+				// diagnostics only: under the package's debug-log switch, or a value that flows only into fmt/log calls
+				for _, dc := range core.DomConds(ins.Block()) {
+					if a, ok := core.IsLoad(dc.V); ok && dc.Truth {
+						if a2, ok := core.IsLoad(a); ok {
+							if g, ok := a2.(*ssa.Global); ok && strings.HasSuffix(strings.ToLower(g.Name()), "log") {
+								return
+							}
+						}
+					}
+				}
+				if onlyToPrinting(bo, 0) {
+					return
+				}
+				nOps++
+				n++
+				key := k + "/raw-sequence-op:" + bo.Op.String()
+				if n > 1 {
+					key += "#" + string(rune('0'+n))
+				}
+				r5.Violate(key, p.InstrPos(ins), "raw "+bo.Op.String()+" on Sequence values outside Sequence.Add/Difference: the result is wrong when the two numbers lie on different sides of the 2^32 wrap (already delivered bytes are delivered again, or data is held back)", nil)
+			})
+		}
+		if nOps == 0 {
+			r5.OK(pkg+"/sequence-ops", "", "no raw ordering or arithmetic on Sequence values outside Add/Difference")
+		}
+	}
+
+	if pkg == "reassembly" {
+		r7 := c.Rule(rp+".7", "T", "direction selection: the (half, reverse half) pair handed to the assembler is chosen only by getHalf (by key direction) or newConnection (fresh connection for that key); nothing else returns &conn.c2s / &conn.s2c")
+		allowed := map[string]string{
+			"(*reassembly.StreamPool).getHalf":       "compares the key with the stored and the reversed key and orders the halves accordingly",
+			"(*reassembly.StreamPool).newConnection": "the connection was just created for this key: c2s is the key's direction",
+		}
+		nRet := 0
+		for _, fn := range pkgFunctions(p, pkg) {
+			k := core.FnKey(fn)
+			idx := 0
+			for _, ret := range core.Returns(fn) {
+				for i := range ret.Results {
+					v := core.RetOperand(ret, i)
+					fa, ok := v.(*ssa.FieldAddr)
+					if !ok {
+						continue
+					}
+					nm := core.FieldOfAddr(fa).Name()
+					if nm != "c2s" && nm != "s2c" {
+						continue
+					}
+					nRet++
+					idx++
+					key := k + "/returns-half"
+					if idx > 1 {
+						key += "#" + string(rune('0'+idx))
+					}
+					if why, ok := allowed[k]; ok {
+						r7.OK(key, p.InstrPos(ret), why)
+					} else {
+						r7.Violate(key, p.InstrPos(ret), "returns &conn."+nm+" directly instead of the pair getHalf selects for the packet's direction: a packet of the reverse direction is processed on the other sender's half (its bytes are judged against the wrong sequence space)", nil)
+					}
+				}
+			}
+		}
+		if nRet < 6 {
+			r7.Missing(pkg+"/half-returns", fmt.Sprintf("only %d returns of half-connection addresses found", nRet))
+		}
+		r6 := c.Rule(rp+".6", "T", "unlinking from the doubly linked page queue is two-sided: where a neighbour's back link is updated under `x.next != nil` (`x.prev != nil`), the nil side updates the queue's last (first) pointer before the page is released")
+		checkUnlinkSides(c, r6, pkg)
+	}
 
 	// ---- .1
 	add := p.Func(pkg, "Sequence.Add")
@@ -728,5 +830,176 @@ func checkSynFin(c *core.Ctx, r *core.Rule, pkg string) {
 			}
 		})
 		r.Check(ok, core.FnKey(fn)+"/SYN-consumes-one", p.Pos(fn.Pos()), "after SYN nextSeq = seq.Add(len(bytes)+1)", "the SYN does not advance the expected sequence number by one more than its data")
+	}
+}
+
+// onlyToPrinting: every use of v is (through conversions / interface boxing /
+// variadic slice stores) an argument of a fmt or log function.
+func onlyToPrinting(v ssa.Value, depth int) bool {
+	if depth > 6 || v.Referrers() == nil || len(*v.Referrers()) == 0 {
+		return false
+	}
+	for _, r := range *v.Referrers() {
+		switch x := r.(type) {
+		case *ssa.Convert:
+			if !onlyToPrinting(x, depth+1) {
+				return false
+			}
+		case *ssa.ChangeType:
+			if !onlyToPrinting(x, depth+1) {
+				return false
+			}
+		case *ssa.MakeInterface:
+			if !onlyToPrinting(x, depth+1) {
+				return false
+			}
+		case *ssa.Store:
+			// boxed into the variadic []interface{}: follow the backing array
+			ia, ok := x.Addr.(*ssa.IndexAddr)
+			if !ok || x.Val != v {
+				return false
+			}
+			al, ok := ia.X.(*ssa.Alloc)
+			if !ok {
+				return false
+			}
+			okAll := false
+			for _, r2 := range *al.Referrers() {
+				if sl, ok := r2.(*ssa.Slice); ok {
+					okAll = onlyToPrinting(sl, depth+1)
+				}
+			}
+			if !okAll {
+				return false
+			}
+		case *ssa.Call:
+			f := x.Call.StaticCallee()
+			if f == nil || f.Pkg == nil || (f.Pkg.Pkg.Path() != "fmt" && f.Pkg.Pkg.Path() != "log") {
+				return false
+			}
+		case *ssa.DebugRef:
+		default:
+			return false
+		}
+	}
+	return true
+}
+
+// checkUnlinkSides: one-sided link maintenance.  For every `if x.next != nil`
+// whose non-nil side stores (x.next).prev, some store to a field named `last`
+// must either be reachable from the nil edge before any page release, or
+// precede the test in the same pass (reach it without crossing a release).
+func checkUnlinkSides(c *core.Ctx, r *core.Rule, pkg string) {
+	p := c.P
+	isRelease := func(i ssa.Instruction) bool {
+		cc := core.CallCommonOf(i)
+		if cc == nil || cc.StaticCallee() == nil {
+			return false
+		}
+		n := cc.StaticCallee().Name()
+		return n == "release" || n == "replace"
+	}
+	storeTo := func(i ssa.Instruction, field string) bool {
+		st, ok := i.(*ssa.Store)
+		if !ok {
+			return false
+		}
+		fa, ok := st.Addr.(*ssa.FieldAddr)
+		return ok && core.FieldOfAddr(fa).Name() == field
+	}
+	n := 0
+	for _, fn := range pkgFunctions(p, pkg) {
+		if strings.HasSuffix(p.Pos(fn.Pos()), "_test.go") {
+			continue
+		}
+		perFn := map[string]int{}
+		for _, b := range fn.Blocks {
+			if len(b.Instrs) == 0 {
+				continue
+			}
+			iff, ok := b.Instrs[len(b.Instrs)-1].(*ssa.If)
+			if !ok {
+				continue
+			}
+			bo, ok := iff.Cond.(*ssa.BinOp)
+			if !ok || (bo.Op != token.NEQ && bo.Op != token.EQL) {
+				continue
+			}
+			var ld ssa.Value
+			if core.IsNilConst(bo.Y) {
+				ld = bo.X
+			} else if core.IsNilConst(bo.X) {
+				ld = bo.Y
+			} else {
+				continue
+			}
+			a, ok := core.IsLoad(ld)
+			if !ok {
+				continue
+			}
+			fa, ok := a.(*ssa.FieldAddr)
+			if !ok || !isPagePtr(fa.X.Type()) {
+				continue
+			}
+			link := core.FieldOfAddr(fa).Name()
+			var back, end string
+			switch link {
+			case "next":
+				back, end = "prev", "last"
+			case "prev":
+				back, end = "next", "first"
+			default:
+				continue
+			}
+			// x itself must not be the head of a single-ended list (no tail pointer to maintain)
+			if xa, ok := core.IsLoad(fa.X); ok {
+				if xf, ok := xa.(*ssa.FieldAddr); ok && core.FieldOfAddr(xf).Name() != "first" && core.FieldOfAddr(xf).Name() != "last" && core.FieldOfAddr(xf).Name() != "next" && core.FieldOfAddr(xf).Name() != "prev" {
+					continue
+				}
+			}
+			nonNil, nilSide := 0, 1
+			if bo.Op == token.EQL {
+				nonNil, nilSide = 1, 0
+			}
+			// the non-nil side stores (x.link).back
+			updates := false
+			for _, ins := range b.Succs[nonNil].Instrs {
+				if st, ok := ins.(*ssa.Store); ok {
+					if f2, ok := st.Addr.(*ssa.FieldAddr); ok && core.FieldOfAddr(f2).Name() == back {
+						if a2, ok := core.IsLoad(f2.X); ok {
+							if f3, ok := a2.(*ssa.FieldAddr); ok && f3.Field == fa.Field && f3.X == fa.X {
+								updates = true
+							}
+						}
+					}
+				}
+			}
+			if !updates {
+				continue
+			}
+			n++
+			perFn[link]++
+			key := core.FnKey(fn) + "/unlink:" + link
+			if perFn[link] > 1 {
+				key += "#" + string(rune('0'+perFn[link]))
+			}
+			// (a) from the nil edge, a store to `end` before any release
+			first := b.Succs[nilSide].Instrs[0]
+			after := storeTo(first, end) || (!isRelease(first) && core.ForwardSearch(fn, first, func(i ssa.Instruction) bool { return storeTo(i, end) }, isRelease) != nil)
+			// (b) a store to `end` that reaches the test without crossing a release
+			before := false
+			core.Instrs(fn, func(i ssa.Instruction) {
+				if storeTo(i, end) && !before {
+					if core.ForwardSearch(fn, i, func(j ssa.Instruction) bool { return j == ssa.Instruction(iff) }, func(j ssa.Instruction) bool { return isRelease(j) }) != nil {
+						before = true
+					}
+				}
+			})
+			r.Check(after || before, key, p.InstrPos(iff), "the nil side maintains ."+end, "x."+link+"."+back+" is updated when x."+link+" != nil but when it is nil the queue's ."+end+" pointer is not updated before the page is released: ."+end+" keeps pointing at a released page, later segments are linked behind it and are never delivered")
+		}
+	}
+	c.Counts[pkg+"_unlink_tests"] = n
+	if n < 3 {
+		r.Missing(pkg+"/unlink-tests", fmt.Sprintf("only %d one-sided link updates found (3 confirmed by reading)", n))
 	}
 }
